@@ -135,18 +135,21 @@ class Beam(_Simu):
 
     @mesh.setter
     def mesh(self, mesh: "Mesh"):
+        _Simu.mesh.fset(self, self._Prepare_mesh(mesh))
+
+    def _Prepare_mesh(self, mesh: "Mesh") -> "Mesh":
         from ..FEM import Mesh
 
         if isinstance(mesh, Mesh) and not all(
             isinstance(groupElem, (_Timoshenko, _EulerBernoulli))
             for groupElem in mesh.Get_list_groupElem(dim=1)
         ):
-            # a plain line mesh (as the constructor accepts): use beam elements
+            # a plain line mesh (as the constructor accepts, or as a mesh file gives back): use beam elements
             if self.useTimoshenko:
                 mesh = _Construct_Timoshenko_mesh(mesh)
             else:
                 mesh = _Construct_Euler_Bernoulli_mesh(mesh)
-        _Simu.mesh.fset(self, mesh)
+        return mesh
 
     def Results_nodeFields_elementFields(
         self, details=False
